@@ -502,6 +502,9 @@ class Harness:
         for st in substeps:
             if st[0] == "sleep":
                 await trio.sleep(st[1])
+            elif st[0] == "execute-in-thread":
+                # the blocking execute() is moved to a worker thread of *this* (foreign) trio run
+                await trio.to_thread.run_sync(functools.partial(self.do_execute, st[1], pid))
             elif not self.sync_step(pid, st):
                 raise ValueError("unknown private-trio step %r" % (st,))
 
@@ -642,6 +645,10 @@ class Harness:
                 with trio.CancelScope(shield=True):
                     await checkpoint(trio.sleep(length))
                     self.ev("cleanup-async-done", pid)
+            if spec.get("cleanup_execute") and sys.exc_info()[0] is not GeneratorExit:
+                # clean-up code that still needs the runtime: refusing is fine, blocking for ever is not
+                self.do_execute(spec["cleanup_execute"], by=pid)
+                self.ev("cleanup-execute-done", pid)
             self.ev("finished", pid)
             self._seg_leave(fl, pid)
             if spec.get("cleanup_raise") and sys.exc_info()[0] is not None and issubclass(sys.exc_info()[0], cancel_type):
